@@ -120,7 +120,7 @@ def rebuild_lines(tr: Trace, obs: dict) -> tuple[list[str], list[str]]:
     for t in ticks:
         ops.append("rbtick " + enc.tick(t))
         exp.append("ok")
-    ops.append("rebuild %s %s %s" % (enc.num(obs["clock"]), enc.num(obs["clock"]), oracle_tokens(obs["oracle"])))
+    ops.append("rbuild %s %s %s" % (enc.num(obs["clock"]), enc.num(obs["clock"]), oracle_tokens(obs["oracle"])))
     if "error" in obs:
         exp.append("crash")
     else:
